@@ -51,6 +51,15 @@ class VerifTask(Task):
         if LEDGER.on_exec is not None:
             LEDGER.on_exec(entry)
         out = dict(script.get("out") or {})
+        if k == "sleep":              # a task that takes n seconds of WALL-CLOCK time (used only before a pollR task)
+            import time
+
+            time.sleep(n)
+            return TaskResult.success(outputs=out)
+        if k == "pollR":              # poll, as a RetryableTask with a finite total timeout (class VerifRetryable)
+            if prog < n:
+                return TaskResult.running(context={"prog." + self.tname: prog + 1})
+            return TaskResult.success(outputs=out)
         if k in ("ok", "verify"):     # verify: the stage's verifier (vverif below) answers RETRY for the first n executions
             return TaskResult.success(outputs=out)
         if k == "terminal":
@@ -100,3 +109,21 @@ def vverif(stage):
             if done <= sc.get("n", 0):
                 return VerifyResult.retry("scripted: not ready yet")
     return VerifyResult.ok()
+
+
+def make_task(td: dict):
+    """the registered implementation of a program task: a RetryableTask for kind pollR, a plain Task otherwise"""
+    if td.get("k") == "pollR":
+        from datetime import timedelta
+
+        from stabilize.tasks.interface import RetryableTask
+
+        class VerifRetryable(VerifTask, RetryableTask):
+            def get_timeout(self):
+                return timedelta(seconds=20)      # total lifetime of THIS task: generous for two quick polls
+
+            def get_backoff_period(self, stage, duration):
+                return timedelta(seconds=900)     # (virtual time: the harness warps it)
+
+        return VerifRetryable(td["name"])
+    return VerifTask(td["name"])
